@@ -129,6 +129,65 @@ pub fn template_mutations(templates: &[(String, Vec<u8>)]) -> Vec<Shard> {
     templates.iter().map(|(n, s)| Shard { name: format!("mutations-of-{}", n), scripts: mutations(s, true) }).collect()
 }
 
+/// Templates in company: every template instance behind a prefix or in front of a suffix drawn from a small grammar of
+/// what real chains put there: `OP_k <0..3 pushes> <0..2 of OP_DROP / OP_2DROP>` (Namecoin's name operations are
+/// OP_1 <hash> OP_2DROP, OP_2 <name> <rand> <value> OP_2DROP OP_2DROP, OP_3 <name> <value> OP_2DROP OP_DROP), a number
+/// followed by CHECKLOCKTIMEVERIFY / CHECKSEQUENCEVERIFY and OP_DROP, OP_DUP, OP_IF; suffixes OP_DROP, OP_2DROP, OP_VERIFY,
+/// OP_1, OP_CODESEPARATOR, OP_ENDIF, OP_CHECKSIG, a push.
+pub fn decorated_templates(templates: &[(String, Vec<u8>)]) -> Shard {
+    let mut prefixes: Vec<Vec<u8>> = Vec::new();
+    let drops: Vec<Vec<u8>> = vec![vec![], vec![0x75], vec![0x6d], vec![0x6d, 0x6d], vec![0x6d, 0x75], vec![0x75, 0x6d], vec![0x75, 0x75]];
+    let datas: [Vec<u8>; 3] = [push_direct(b"d/example"), push_direct(&filler(5, 20)), push_direct(b"{\"ip\":\"1.2.3.4\"}")];
+    for op in [0x00u8, 0x4f, 0x51, 0x52, 0x53, 0x60] {
+        for n_data in 0..=3usize {
+            for d in &drops {
+                if n_data == 0 && d.is_empty() && op == 0 {
+                    continue;
+                }
+                let mut p = vec![op];
+                for k in 0..n_data {
+                    p.extend_from_slice(&datas[k]);
+                }
+                p.extend_from_slice(d);
+                prefixes.push(p);
+            }
+        }
+    }
+    for lock in [&[0x03u8, 0x40, 0x42, 0x0f][..], &[0x04, 0x00, 0x65, 0xcd, 0x1d][..], &[0x51][..]] {
+        for op in [0xb1u8, 0xb2] {
+            let mut p = lock.to_vec();
+            p.push(op);
+            p.push(0x75);
+            prefixes.push(p);
+        }
+    }
+    prefixes.push(vec![0x76]);
+    prefixes.push(vec![0x63]);
+    prefixes.push(vec![0x75]);
+    prefixes.push(vec![0x6d]);
+    let suffixes: Vec<Vec<u8>> = vec![vec![0x75], vec![0x6d], vec![0x69], vec![0x51], vec![0xab], vec![0x68], vec![0xac], push_direct(&filler(6, 20)), vec![0x6a], vec![0x87]];
+    let mut v: Vec<Vec<u8>> = Vec::new();
+    for (name, t) in templates {
+        // one instance per template kind is enough here (the payload patterns are swept by the mutation family)
+        if name.ends_with("/1") || name.ends_with("/2") || name.starts_with("p2pk-g") {
+            continue;
+        }
+        for p in &prefixes {
+            let mut x = p.clone();
+            x.extend_from_slice(t);
+            v.push(x);
+        }
+        for sfx in &suffixes {
+            let mut x = t.clone();
+            x.extend_from_slice(sfx);
+            v.push(x);
+        }
+    }
+    v.sort();
+    v.dedup();
+    Shard { name: "decorated-templates".into(), scripts: v }
+}
+
 /// witness version x program length grid with truncations / extensions
 pub fn witness_grid() -> Shard {
     let mut v = Vec::new();
